@@ -286,6 +286,11 @@ def run(case, ctx):
                 ctx.violate(f"C16/{entry}/{kind}:{obj.type}", f"parse #{i + 1} of {before!r} raised {obj!r}")
                 return
             results.append(obj)
+            if i == 0 and case["n"] == 2:
+                # the first result is USED (validated / tested / filtered / resolved, serialised, printed, compared) before
+                # the same structure is parsed again; using an object is a read
+                _use(obj, doc)
+                ctx.count("first-result-used-between-parses")
             if i == 0 and case["n"] >= 3:
                 # an independent parse of an equal copy of the spec, kept pristine for comparison,
                 # while the first result is handed to a caller who changes it (results of earlier
@@ -342,6 +347,20 @@ def run(case, ctx):
     if feats:
         ctx.mark_nontrivial((entry, text))
         ctx.sample({"entry": entry, "spec": before, "parses": case["n"]}, cap=5)
+
+
+def _use(obj, doc):
+    for f in (lambda o: o.validate(M.deep_copy(doc)), lambda o: o.test(M.deep_copy(doc)), lambda o: o.filter(M.deep_copy(doc)),
+              lambda o: o.get_data(M.deep_copy(doc)), lambda o: [r.test(M.deep_copy(doc)) for r in o]):
+        try:
+            f(obj)
+        except Exception:
+            pass
+    if type(obj) is list:
+        for r in obj:
+            build._look(r)
+    else:
+        build._look(obj)
 
 
 def _where(path):
